@@ -5,32 +5,12 @@
 import CosetModel.KeyCwtContext
 namespace Coset
 
-mutual
-/-- number of nodes plus string bytes of a value: an upper bound for any nesting reachable from it. -/
-def Value.size : Value → Nat
-  | .bytes b => b.length + 1
-  | .text b => b.length + 1
-  | .tag _ v => Value.size v + 1
-  | .array xs => Value.sizeL xs + 1
-  | .map kvs => Value.sizeP kvs + 1
-  | _ => 1
-def Value.sizeL : List Value → Nat
-  | [] => 0
-  | x :: xs => Value.size x + Value.sizeL xs
-def Value.sizeP : List (Value × Value) → Nat
-  | [] => 0
-  | (k, v) :: kvs => Value.size k + Value.size v + Value.sizeP kvs
-end
 
-/-- fuel for the Header ↔ CoseSignature ↔ ProtectedHeader recursion when starting from bytes:
-    three units per nesting level, and a level needs at least one input byte. -/
-def fuelOfBytes (bs : Bytes) : Nat := 3 * bs.length + 3
-def fuelOfValue (v : Value) : Nat := 3 * v.size + 3
 
 /-- `CborSerializable::from_slice` -/
-def fromSlice {α : Type} (conv : Nat → Value → Res α) (bs : Bytes) : Res α :=
+def fromSlice {α : Type} (conv : Value → Res α) (bs : Bytes) : Res α :=
   match readToValue bs with
-  | .ok v => conv (fuelOfBytes bs) v
+  | .ok v => conv v
   | .err e => .err e
   | .panic p => .panic p
 
@@ -42,11 +22,11 @@ def toVec {α : Type} (toV : α → Res Value) (x : α) : Res Bytes :=
   | .panic p => .panic p
 
 /-- `TaggedCborSerializable::from_tagged_slice` -/
-def fromTaggedSlice {α : Type} (tag : Nat) (conv : Nat → Value → Res α) (bs : Bytes) : Res α :=
+def fromTaggedSlice {α : Type} (tag : Nat) (conv : Value → Res α) (bs : Bytes) : Res α :=
   match readToValue bs with
   | .ok v =>
     match tryAsTag v with
-    | .ok (t, inner) => if t != tag then .err .unexpectedItem else conv (fuelOfBytes bs) inner
+    | .ok (t, inner) => if t != tag then .err .unexpectedItem else conv inner
     | .err e => .err e
     | .panic p => .panic p
   | .err e => .err e
@@ -59,7 +39,5 @@ def toTaggedVec {α : Type} (tag : Nat) (toV : α → Res Value) (x : α) : Res 
   | .err e => .err e
   | .panic p => .panic p
 
-/-- conversions that do not recurse through protected headers ignore the fuel. -/
-def noFuel {α : Type} (f : Value → Res α) : Nat → Value → Res α := fun _ v => f v
 
 end Coset
